@@ -481,6 +481,20 @@ class Annotator:
             out.append('    }\n')
             self.obls.append(Obligation(decl=d.id, fn='lemma_c11_canonical', kind='lemma', props=['C11'],
                                         clause='spec_try_new(raw) == Ok(v) ==> spec_try_new(v.view) == Ok(v)   (over the spec functions tied to the code by the C01 contracts)'))
+        for ent in getattr(d, 'c16', []) or []:
+            # C16: what the message states (read from the dump) <=> what the validator accepts (declaration)
+            v = ent['validator']
+            subj, rel = ent['stated']
+            VT = d.view_type()
+            lhs = 'x.len()' if subj == 'len' else 'x'
+            if (subj == 'len') != (d.family == 'string'):
+                continue
+            name = 'lemma_c16_%s' % ent['variant']
+            out.append('    impl%s %s%s {\n' % (d.generics, d.name, d.generic_args))
+            out.append('        pub proof fn %s(x: %s)\n            ensures (%s %s (%s)) <==> %s,\n        {\n        }\n    }\n'
+                       % (name, VT, lhs, rel, v.bound.spec, d.spec_accepts(v, 'x')))
+            self.obls.append(Obligation(decl=d.id, fn=name, kind='lemma', props=['C16'],
+                                        clause='forall x: (message: "%s") x %s bound  <=>  validator %s accepts x' % (ent['fmt'][:70], rel, v.kind)))
         return out
 
 
